@@ -434,6 +434,7 @@ func c07Check(c *c07Case) string {
 	ex := c.expect()
 	r, err := dec(tok)
 	rv, errv := decv(tok)
+	otherTrafficEvery(8)
 	if err == nil && r == nil || errv == nil && rv == nil {
 		return "decoder returned neither claims nor an error"
 	}
